@@ -794,26 +794,51 @@ def _root_.Pyemv.Tlv.PyVal.asBytes? : PyVal → Option Bytes | .bytes b => some 
 
 
 def translate(repo):
+    """(lean text, failures): the decoder half and the encoder half are translated independently; a half that is
+    outside the subset is replaced by a stand-in about which no refinement theorem holds"""
     tree = ast.parse(open(os.path.join(repo, "pyemv", "tlv.py")).read())
-    fns = check_module(tree)
-    dl, dcode = gen_decode_loop(fns["_decode"])
-    el, ecode = gen_encode_loop(fns["_encode"])
-    parts = [HEADER] + dl + [dcode, gen_decode(fns["decode"])] + el + [ecode, gen_encode(fns["encode"]), "end Pyemv.TlvGen", ""]
-    return "\n\n".join(parts)
+    failures = {}
+    try:
+        fns = check_module(tree)
+    except Unsupported as e:
+        fns = None
+        failures["decode"] = failures["encode"] = str(e)
+    parts = [HEADER]
+    if fns is not None:
+        try:
+            dl, dcode = gen_decode_loop(fns["_decode"])
+            parts += dl + [dcode, gen_decode(fns["decode"])]
+        except Unsupported as e:
+            failures["decode"] = str(e)
+        try:
+            el, ecode = gen_encode_loop(fns["_encode"])
+            parts += el + [ecode, gen_encode(fns["encode"])]
+        except Unsupported as e:
+            failures["encode"] = str(e)
+    if "decode" in failures:
+        parts.append("/-- UNTRANSLATED: the current source of the decoder is outside the translator's subset -/\n"
+                     "def decode {α : Type} (_convert : Bytes → Bytes → α) (_flatten _simple : Option Bool) (_data : Bytes) : ResC α := .crash")
+    if "encode" in failures:
+        parts.append("/-- UNTRANSLATED: the current source of the encoder is outside the translator's subset -/\n"
+                     "def encode (_simple : Option Bool) (_tlv : List (PyStr × PyVal)) : ERes := .crash")
+    parts += ["end Pyemv.TlvGen", ""]
+    return "\n\n".join(parts), failures
 
 
 def main():
+    import json
     repo, out = sys.argv[1], sys.argv[2]
-    try:
-        text = translate(repo)
-    except Unsupported as e:
-        print(f"translate_tlv: unsupported construct: {e}")
-        sys.exit(3)
+    text, failures = translate(repo)
     tmp = out + ".tmp"
     with open(tmp, "w") as f:
         f.write(text)
     os.replace(tmp, out)
-    print("translate_tlv: ok")
+    with open(out + ".failures.json", "w") as f:
+        json.dump(failures, f, indent=1)
+    for k, m in failures.items():
+        print(f"translate_tlv: unsupported construct in {k}: {m}")
+    print("translate_tlv: ok" if not failures else f"translate_tlv: {len(failures)} half/halves not translated")
+    sys.exit(3 if failures else 0)
 
 
 if __name__ == "__main__":
